@@ -43,6 +43,10 @@ type Case struct {
 	Servers    []int      `json:"servers"`
 	Goroutines [][][2]int `json:"goroutines"`
 	Transport  string     `json:"transport"` // unix | tcp
+	// Decoys: endpoints which the servers advertise ahead of the one they listen
+	// on: 1 an address of the range which endpoint selection always skips, 2 a
+	// unix socket nobody listens on, 3 both
+	Decoys int `json:"decoys,omitempty"`
 	Procs      int        `json:"procs,omitempty"`
 	// BigTag > 0: every other verification call carries an argument of that
 	// many bytes (requests and replies larger than common buffer sizes travel
@@ -85,6 +89,7 @@ type Case struct {
 
 func genCase(t *rapid.T) Case {
 	c := Case{Transport: rapid.SampledFrom([]string{"unix", "unix", "tcp"}).Draw(t, "transport")}
+	c.Decoys = rapid.SampledFrom([]int{0, 0, 0, 1, 2, 3}).Draw(t, "decoys")
 	ns := rapid.IntRange(1, 3).Draw(t, "servers")
 	for i := 0; i < ns; i++ {
 		c.Servers = append(c.Servers, rapid.IntRange(1, 4).Draw(t, "services"))
@@ -192,7 +197,17 @@ func checkCase(c Case) error {
 		}
 		cl := &hio.CountingListener{Listener: l}
 		listeners = append(listeners, cl)
-		ns, err := services.Namespace(registrar, []string{addr})
+		advertised := []string{addr}
+		if c.Decoys&2 != 0 {
+			advertised = append([]string{"unix://" + filepath.Join(dir, "nobody-listens")}, advertised...)
+		}
+		if c.Decoys&1 != 0 {
+			advertised = append([]string{"tcp://198.18.0.1:9559"}, advertised...)
+		}
+		if c.Decoys != 0 {
+			vt.Label("several-endpoints-advertised(first-not-the-one-connected)")
+		}
+		ns, err := services.Namespace(registrar, advertised)
 		if err != nil {
 			return vt.Violationf("C19:setup", "namespace: %v", err)
 		}
